@@ -54,7 +54,9 @@ theorem InvX.new_child {s : St} (hi : InvX E s) {K ks : Kind} {hk : HKind} {dv :
     let sA := (s.alloc K (some dv) sz).1
     let sL := sA.chSet ks dv (Ring.add (sA.chGet ks dv) s.next)
     InvX E (tempOf sL hk s.next) ∧ TempOut sL (tempOf sL hk s.next) hk s.next ∧ Grow s sL
-      ∧ sL.next = s.next + 1 ∧ sL.vlive = s.vlive ∧ sL.ptr = s.ptr := by
+      ∧ sL.next = s.next + 1 ∧ sL.vlive = s.vlive ∧ sL.ptr = s.ptr
+      ∧ (∀ x, sL.alive x = if x = s.next then true else s.alive x)
+      ∧ (∀ x, sL.kind x = if x = s.next then K else s.kind x) := by
   intro sA sL
   obtain ⟨a1, a2, a3, a4, a5, a6, a7, a8, a9, a10, a11⟩ := alloc_fields s K (some dv) sz
   obtain ⟨f1, f2, f3, f4, f5, f6, f7, f8⟩ := hi.toInv00.fresh (Nat.le_refl s.next)
@@ -147,6 +149,6 @@ theorem InvX.new_child {s : St} (hi : InvX E s) {K ks : Kind} {hk : HKind} {dv :
     exact hrn x hlt hxa hxk hxu
   obtain ⟨r1, r2⟩ := attach_new (hk := hk) (o := s.next) h0L hrn' hbn (by rw [hLalive]; simp)
     (by rw [hLkind]; simp [hhk]) (by rw [c11, a3]; exact htl)
-  exact ⟨r1, r2, hg, by rw [c1, a1], by rw [c11, a3], by rw [c10, a2]⟩
+  exact ⟨r1, r2, hg, by rw [c1, a1], by rw [c11, a3], by rw [c10, a2], hLalive, hLkind⟩
 
 end Occa.Gc
